@@ -39,14 +39,14 @@ Theorem C11path_rows_on_user_column_partial : forall (rename : options -> string
 Proof. exact path_rows_l. Qed.
 Print Assumptions C11path_rows_on_user_column_partial.
 
-(* inside kf_collapse: emb~1 >= 3 and emb~2 >= 3 on a multi-column feature with the default set_feature_name; which of
-   the two filters survives depends on the set order; the spec keeps rows 0,1,2 *)
+(* inside kf_collapse: emb~1 >= 3 and emb~2 >= 3 on a multi-column feature with the default set_feature_name; only the
+   filter that comes first in the set order is applied (rows 0,2,3 or rows 0,1,4); the spec keeps row 0 *)
 Theorem C11path_collapse_refuted :
   kf_collapse wA_rename wA_group w_feat (map plain_filter [wC_f1; wC_f2]) = true /\
-  fineb wC_f1 wA_table = true /\ fineb wC_f2 wA_table = true /\
-  w_ids (run_path wA_rename wA_group w_feat ["id"] (map plain_filter [wC_f1; wC_f2]) wA_table) = Some [VInt 0; VInt 1; VInt 2; VInt 3] /\
-  w_ids (run_path wA_rename wA_group w_feat ["id"] (map plain_filter [wC_f2; wC_f1]) wA_table) = Some [VInt 0; VInt 1; VInt 2] /\
-  map (fun r => get r "id") (path_expected (declared wA_group) [wC_f1; wC_f2] wA_table) = [VInt 0; VInt 1; VInt 2].
+  fineb wC_f1 wC_table = true /\ fineb wC_f2 wC_table = true /\
+  w_ids (run_path wA_rename wA_group w_feat ["id"] (map plain_filter [wC_f1; wC_f2]) wC_table) = Some [VInt 0; VInt 2; VInt 3] /\
+  w_ids (run_path wA_rename wA_group w_feat ["id"] (map plain_filter [wC_f2; wC_f1]) wC_table) = Some [VInt 0; VInt 1; VInt 4] /\
+  map (fun r => get r "id") (path_expected (declared wA_group) [wC_f1; wC_f2] wC_table) = [VInt 0].
 Proof. exact collapse_refuted_l. Qed.
 Print Assumptions C11path_collapse_refuted.
 
